@@ -3,6 +3,7 @@ import Driver.Tree
 import Driver.Str
 import Driver.Seq
 import Driver.Hash
+import Driver.Lock
 
 def main (args : List String) : IO UInt32 := do
   match args with
@@ -13,4 +14,5 @@ def main (args : List String) : IO UInt32 := do
   | ["vector"] => Driver.Seq.runVector; return 0
   | ["hash"] => Driver.Hash.run; return 0
   | ["hashspec"] => Driver.Hash.runSpec; return 0
+  | ["lock"] => Driver.Lock.run; return 0
   | _ => IO.eprintln "usage: qdriver <module>"; return 2
